@@ -111,6 +111,11 @@ Definition da_threshold_ok (clamped : bool) (rf n nact : Z) : bool :=
   if clamped then negb (is_panic (zkp_threshold_c rf n nact))
   else match Tally.zkp_threshold_old rf n nact with Some _ => true | None => false end.
 
+Definition with_pp (s : Da.dstate) (pp : Z) : Da.dstate :=
+  let p := Da.s_prm s in
+  Da.St (Da.Pm (Da.pr_thr p) (Da.pr_rf p) (Da.pr_cp p) pp (Da.pr_rej p) (Da.pr_ver p) (Da.pr_pc p) (Da.pr_ic p))
+        (Da.s_items s) (Da.s_invs s) (Da.s_prfs s) (Da.s_deps s).
+
 Definition da_end (clamped : bool) (height now : Z) (i : da_in) : res (Da.dstate * bank) :=
   let s := di_state i in
   let p := Da.s_prm s in
@@ -123,7 +128,14 @@ Definition da_end (clamped : bool) (height now : Z) (i : da_in) : res (Da.dstate
        pp > 0: it is never due in the same block, so the pre-state items decide *)
     Panic
   else
-  let! r := Da.end_block Da.repaired (da_verdict (Da.pr_rf p)) now s (di_bank i) in
+  (* no bonded validator: GetZkpThreshold returns an error for every due item, the tally logs it
+     and leaves the item CHALLENGING (it is retried at every block).  Modelled by running the end
+     blocker with a proof period nothing can have outlived ([ts >= 0], so ts + now + 1 > now) and
+     putting the real one back. *)
+  let stuck := di_nact i =? 0 in
+  let s_run := if stuck then with_pp s (now + 1) else s in
+  let! r0 := Da.end_block Da.repaired (da_verdict (Da.pr_rf p)) now s_run (di_bank i) in
+  let r := if stuck then (with_pp (fst r0) (Da.pr_pp p), snd r0) else r0 in
   (* height % SlashEpoch == 0 -> HandleSlashEpoch: threshold = ceil(sft * challenges).Uint64() *)
   if di_slash_epoch i =? 0 then Panic
   else if (height mod di_slash_epoch i =? 0) then
